@@ -125,6 +125,16 @@ def cmd_gen(n):
     print("planned %d mutants over %d files" % (len(out), len({m["file"] for m in out})))
 
 
+def save_one(mid, fields):
+    """read-modify-write of one mutant's record under a file lock (the static and the survival runs work concurrently)"""
+    import fcntl
+    with open(RES + ".lock", "w") as lk:
+        fcntl.flock(lk, fcntl.LOCK_EX)
+        res = json.load(open(RES)) if os.path.exists(RES) else {}
+        res.setdefault(mid, {}).update(fields)
+        json.dump(res, open(RES, "w"), indent=1, sort_keys=True)
+
+
 def load():
     plan = json.load(open(PLAN))
     res = json.load(open(RES)) if os.path.exists(RES) else {}
@@ -157,7 +167,7 @@ def cmd_static(k):
         subprocess.check_call(["rsync", "-a", "--delete", "--exclude", "target", "--exclude", ".git", "/repo/", dst + "/"])
         r_ = res.setdefault(m["id"], {})
         if not apply(dst, m):
-            r_["static"] = "stale-plan"
+            save_one(m["id"], {"static": "stale-plan"})
             continue
         t0 = time.time()
         env = dict(os.environ, QBV_REPO=dst, QBV_EVIDENCE_DIR=os.path.join(SCRATCH, "evidence"))
@@ -173,7 +183,7 @@ def cmd_static(k):
         r_["static_s"] = round(time.time() - t0)
         done += 1
         print("%s %-60s %-14s %-22s %s" % (m["id"], m["file"].split("/")[-1] + ":" + str(m["line"]), m["op"], r_["static"], ";".join(r_.get("keys", []))[:100]), flush=True)
-        json.dump(res, open(RES, "w"), indent=1, sort_keys=True)
+        save_one(m["id"], {k_: v_ for k_, v_ in r_.items() if k_ in ("static", "keys", "static_s")})
 
 
 def sh(c):
@@ -190,12 +200,13 @@ def cmd_survive(k):
     for m in plan:
         if done >= k:
             break
+        res = json.load(open(RES)) if os.path.exists(RES) else {}
         r_ = res.get(m["id"], {})
         if r_.get("static") != "missed" or "tests" in r_:
             continue
         sh("git -C %s checkout -- ." % WT)
         if not apply(WT, m):
-            r_["tests"] = "stale-plan"
+            save_one(m["id"], {"tests": "stale-plan"})
             continue
         t0 = time.time()
         r = sh("cd %s && timeout 1500 cargo test --workspace --no-fail-fast --offline 2>&1" % WT)
@@ -211,7 +222,7 @@ def cmd_survive(k):
         r_["tests_s"] = round(time.time() - t0)
         done += 1
         print("%s %-60s %-14s %s %s" % (m["id"], m["file"].split("/")[-1] + ":" + str(m["line"]), m["op"], r_["tests"], r_.get("failed", [])[:2]), flush=True)
-        json.dump(res, open(RES, "w"), indent=1, sort_keys=True)
+        save_one(m["id"], {k_: v_ for k_, v_ in r_.items() if k_ in ("tests", "failed", "tests_s")})
     sh("git -C %s checkout -- ." % WT)
 
 
